@@ -252,6 +252,13 @@ def explore(make_run, max_paths=5000):
             aborted = False
         except PathAbort:
             aborted = True
+        except Unsupported as u:
+            # this path leaves the supported subset: the other paths are still explored and
+            # judged; the family is reported as undecided (never as passed)
+            stats.setdefault("unsupported", []).append(str(u))
+            if len(stats["unsupported"]) > 2000:
+                raise
+            aborted = True
         stack.extend(path.alternatives)
         stats["solver_calls"] += path.solver_calls
         if aborted:
